@@ -360,7 +360,8 @@ SPECS["C08"] = CheckSpec(
 SPECS["C13"] = CheckSpec(
     "C13", c13_jobs,
     rule="explicit-state BFS over conversations in which PDUs carry version bytes 0/1/2: answers {correct in the "
-         "cache's version, new data, Unsupported-Version report carrying a lower / the same / a higher version, close "
+         "cache's version, new data, Unsupported-Version report carrying a lower / the same / an unsupported higher / "
+         "version 1 (a higher SUPPORTED version once the client is at 0), close "
          "without answer, answer in version 0, one PDU with another version inside a response, End of Data in the other "
          "version's format, answer in version 2, timeout} against caches speaking version 1 and version 0; a model "
          "variable v (starts at 1, lowered only by the three rules of the statement) must equal the version byte of "
@@ -643,9 +644,9 @@ def _sj(prop, args, label, n, build=None):
 def c16_jobs(tier, repo):
     if tier == "quick":
         return (_sj("C16", ["--shape=1x1", "--bound=3"], "1 reader x 1 op, <=3 preemptions", 2)
-                + _sj("C16", ["--shape=2x1", "--bound=2"], "2 readers x 1 op, <=2 preemptions", 6)
-                + _sj("C16", ["--shape=1x2", "--bound=2"], "1 reader x 2 ops, <=2 preemptions", 4)
-                + _sj("C16", ["--shape=2x1", "--free", "--iters=60"], "TSan free-running, 2 readers", 4, SCHED_TSAN))
+                + _sj("C16", ["--shape=2x1", "--bound=2"], "2 readers x 1 op, <=2 preemptions", 8)
+                + _sj("C16", ["--shape=1x2", "--bound=2"], "1 reader x 2 ops, <=2 preemptions", 2)
+                + _sj("C16", ["--shape=2x1", "--free", "--iters=20"], "TSan free-running, 2 readers", 4, SCHED_TSAN))
     return (_sj("C16", ["--shape=1x1", "--bound=4"], "1 reader x 1 op, <=4 preemptions", 2)
             + _sj("C16", ["--shape=2x1", "--bound=3"], "2 readers x 1 op, <=3 preemptions", 12)
             + _sj("C16", ["--shape=1x2", "--bound=3"], "1 reader x 2 ops, <=3 preemptions", 8)
@@ -672,7 +673,8 @@ _SCHED_NOTE = ("Real pthreads run the real table code; pthread_rwlock_{rdlock,wr
 SPECS["C16"] = CheckSpec(
     "C16", c16_jobs,
     rule="every program = writer thread running every pair of operations from {pfx add, pfx remove of the root (pull-up), "
-         "remove-by-source (two critical sections), key add, key remove} x 1..2 reader threads x 1..2 operations from "
+         "remove-by-source (two critical sections), remove of the last IPv6 record (empties a tree), add into the empty "
+         "tree, key add, key remove} x 1..2 reader threads x 1..2 operations from "
          "{validate IPv4, validate with reasons, validate IPv6, for-each IPv4, for-each IPv6, get_all, search_by_ski} on a pre-populated "
          "nested table; for every program ALL interleavings at lock operations and operation boundaries within the "
          "preemption bound; each read records the writer's completed-critical-section counter at call and return and "
